@@ -18,12 +18,13 @@
      to variables / array elements / map entries (index and dot targets),
      calls of the modelled built-ins (print sprint read cls sleep len has del
      typeof str2num str2bool exit panic join startswith endswith min max abs
-     sqrt and the simple graphics calls), if / else, while, for over step
+     sqrt and the simple graphics calls) and of the program's own functions
+     (fixed and variadic parameters, return with and without value, recursion,
+     reads and assignments of globals), if / else, while, for over step
      ranges, arrays, strings and maps, break.  C02_soundness_modulo_overflow_partial:
      no run ends in an internal error, and the only host crash is the stack
      overflow of String/Equals/deepCopy on a value that contains itself.
-   Outside both: user functions, return, event handlers, the test built-in and
-   the un-modelled built-ins.  The full statement [soundness_full] is REFUTED
+   Outside both: event handlers, the test built-in and the un-modelled built-ins.  The full statement [soundness_full] is REFUTED
    on the model (and on the implementation): C02_soundness_full_refuted. *)
 From Coq Require Import ZArith NArith List String Bool.
 From EvyV Require Import Base Num Ast Omap Sem Static SemSound.
@@ -33,34 +34,34 @@ Open Scope Z_scope.
 (* ---------- the full statements (NOT proved; the first one is false) ---------- *)
 Definition soundness_full : Prop :=
   forall P, wt_program P = true ->
-  forall fuel s0, state_ok true s0 -> ~ goes_wrong (fst (run_program fuel P s0)).
+  forall fuel s0, start_ok true P s0 -> ~ goes_wrong (fst (run_program fuel P s0)).
 
 (* what remains plausible for the whole language: no internal error, and the
    only host crash is the exhaustion of the host stack by a value that
    contains itself (SemSound.overflow_reason).  Proved below for s2_program. *)
 Definition soundness_modulo_overflow_full (wt' : program -> bool) : Prop :=
   forall P, wt' P = true ->
-  forall fuel s0, state_ok false s0 -> ~ goes_wrong_badly (fst (run_program fuel P s0)).
+  forall fuel s0, start_ok false P s0 -> ~ goes_wrong_badly (fst (run_program fuel P s0)).
 
 (* ---------- proved: soundness on the strict fragment ---------- *)
 Theorem C02_soundness_partial : forall P,
   wt_program P = true -> s1_program P = true ->
-  forall fuel s0, state_ok true s0 -> ~ goes_wrong (fst (run_program fuel P s0)).
+  forall fuel s0, start_ok true P s0 -> ~ goes_wrong (fst (run_program fuel P s0)).
 Proof. exact soundness_stage1. Qed.
 Print Assumptions C02_soundness_partial.
 
 (* ---------- proved: soundness modulo stack overflow on the wide fragment ---------- *)
 Theorem C02_soundness_modulo_overflow_partial : forall P,
   wt_program P = true -> s2_program P = true ->
-  forall fuel s0, state_ok false s0 -> ~ goes_wrong_badly (fst (run_program fuel P s0)).
+  forall fuel s0, start_ok false P s0 -> ~ goes_wrong_badly (fst (run_program fuel P s0)).
 Proof. exact soundness_stage2. Qed.
 Print Assumptions C02_soundness_modulo_overflow_partial.
 
 (* the start states of Evaluator.Eval are well typed (for both fragments), whatever
    the stop point, the input, and the two flags *)
-Theorem C02_init_state_ok : forall strict stop input failfast after_yield,
-  state_ok strict (init_state stop input failfast after_yield).
-Proof. exact init_state_ok. Qed.
+Theorem C02_init_state_ok : forall strict P stop input failfast after_yield,
+  wt_program P = true -> start_ok strict P (init_state stop input failfast after_yield).
+Proof. exact init_state_start_ok. Qed.
 Print Assumptions C02_init_state_ok.
 
 (* ---------- proved: preservation (both fragments: strict = true / false) ---------- *)
@@ -69,10 +70,12 @@ Print Assumptions C02_init_state_ok.
    cell of dynamic type t under an extension of S that still types heap and
    environment; an error is never internal and is a host crash only for
    strict = false and a stack overflow on a cyclic value *)
-Theorem C02_preservation_partial : forall strict n P e x G t S s,
-  ety (p_funcs P) G x = Some t -> s1_expr strict x = true -> genv_ok G -> inv strict S G e s ->
+Theorem C02_preservation_partial : forall strict Gg,
+  (forall n t, sget n global_frame0 = Some t -> sget n Gg = Some t) ->   (* Gg: the program's global frame *)
+  forall n P e x G t S s,
+  ety (p_funcs P) G x = Some t -> s1_expr strict x = true -> genv_ok strict Gg P G -> inv strict Gg S G e s ->
   match eval_expr n P e x s with
-  | (Ok l, s') => exists S', ext S S' /\ inv strict S' G e s' /\ sfind S' l = Some t
+  | (Ok l, s') => exists S', ext S S' /\ inv strict Gg S' G e s' /\ sfind S' l = Some t
   | (Er er, _) => safe_err strict er
   end.
 Proof. exact preservation_generic. Qed.
@@ -173,6 +176,41 @@ Example C02_ex_map_run :
   | _ => False end.
 Proof. vm_compute. split; reflexivity. Qed.
 
+(*  func fact:num n:num / if n <= 1 / return 1 / end / return n * (fact n-1) / end
+    func sum:num nums:num... / t := 0 / for x := range nums / t = t + x / end / return t / end
+    print (fact 5) (sum 1 2 3)  *)
+Definition n5 : expr := ENum (float_of_bits 4617315517961601024).
+Definition ex_funcs : program :=
+  {| p_funcs :=
+       [{| fn_name := s_ "fact"; fn_params := [(s_ "n", TNum)]; fn_variadic := None; fn_ret := TNum;
+           fn_body :=
+             [SIf [(EBin BLtEq TBool (v_ "n" TNum) n1, [SReturn (Some n1)])] None;
+              SReturn (Some (EBin BAsterisk TNum (v_ "n" TNum)
+                               (EGroup (ECall (s_ "fact") TNum [EBin BMinus TNum (v_ "n" TNum) n1]))))] |};
+        {| fn_name := s_ "sum"; fn_params := []; fn_variadic := Some (s_ "nums", TNum); fn_ret := TNum;
+           fn_body :=
+             [SDecl (s_ "t") TNum n0;
+              SFor (Some (s_ "x")) TNum (RExpr (v_ "nums" (TArr TNum)))
+                [SAssign (v_ "t" TNum) (EBin BPlus TNum (v_ "t" TNum) (v_ "x" TNum))];
+              SReturn (Some (v_ "t" TNum))] |}];
+     p_handlers := [];
+     p_stmts :=
+       [SNop; SNop;
+        SCallStmt (s_ "print")
+          [EAny (EGroup (ECall (s_ "fact") TNum [n5])) TNum;
+           EAny (EGroup (ECall (s_ "sum") TNum [n1; n2; n3])) TNum]] |}.
+
+Example C02_ex_funcs_hyps : wt_program ex_funcs = true /\ s1_program ex_funcs = true.
+Proof. vm_compute. split; reflexivity. Qed.
+
+Example C02_ex_funcs_run :
+  let '(o, s) := run_program 300 ex_funcs s0_ in
+  o = ODone /\
+  match st_trace s with
+  | EvPrint p :: _ => pieces_str p = Some (s_ "120 6" ++ [10%N])
+  | _ => False end.
+Proof. vm_compute. split; reflexivity. Qed.
+
 (* ---------- the full statement is false ---------- *)
 (*  a:[]any / a = [1] / a[0] = a / print a  : accepted by the Go parser and by
     wt; String() recurses for ever on the value that contains itself (the Go
@@ -222,7 +260,7 @@ Print Assumptions C02_early_call_is_an_evy_panic.
 Theorem C02_not_soundness_full : ~ soundness_full.
 Proof.
   intros H. destruct C02_soundness_full_refuted as (P & fuel & Hwt & Hbad).
-  exact (H P Hwt fuel s0_ (init_state_ok _ _ _ _ _) Hbad).
+  exact (H P Hwt fuel s0_ (init_state_start_ok true P _ _ _ _ Hwt) Hbad).
 Qed.
 Print Assumptions C02_not_soundness_full.
 
